@@ -300,8 +300,9 @@ fn trace_rounds(seed: u64, parens: usize) {
                     out.extend(l.iter().map(|j| (j.clone(), run(j))));
                     deep_done.store(true, std::sync::atomic::Ordering::SeqCst);
                 } else {
-                    // short traces begin and end for as long as the deep one is running (at most 40 rounds)
-                    for _round in 0..40 {
+                    // short traces begin and end for as long as the deep one is running (at most 12 rounds: Miri keeps the
+                    // history of every access, a long run costs gigabytes)
+                    for _round in 0..12 {
                         out.extend(l.iter().map(|j| (j.clone(), run(j))));
                         if deep_done.load(std::sync::atomic::Ordering::SeqCst) {
                             break;
